@@ -56,6 +56,11 @@ Definition teal_fields (t : teal) : list (string * string) :=
    ("subs", jlist (map sub_json (t_subs t)));
    ("retained_lines", jnats (flat_map (fun k => match nth_error (t_prog t) k with Some i => [i_line i] | None => [] end) (t_retained_ins t)));
    ("intcs", match t_intcs t with Some ((_ :: _) as l) => jlist (map string_of_N l) | _ => "null" end);
+   ("flags", let '(fl, _) := verify_version (t_prog t) (t_version t) in
+             jlist (map (fun '(ln, k) => jlist [nat_str ln; jstr (match k with FlagIns => "ins" | FlagField => "field" end)]) fl));
+   ("mixed", if snd (verify_version (t_prog t) (t_version t)) then "true" else "false");
+   ("costs", jobj (map (fun b => (nat_str (b_idx b), string_of_N (block_cost t b))) (t_blocks t)));
+   ("contract_type", jstr (match t_mode t with MStateful => "ApprovalProgram" | _ => "LogicSig" end));
    ("structured", if forallb (fun b => Nat.leb (length (filter (fun s => nat_mem (b_idx b) (s_blocks s)) (t_main t :: t_subs t))) 1) (t_blocks t) then "true" else "false")].
 
 Definition handle_cfg (src : string) : string :=
